@@ -1495,14 +1495,6 @@ int state_sync(struct snapraid_state* state, block_off_t blockstart, block_off_t
 
 		/* number of block in the parity file */
 		parity_size(&parity_handle[l], &out_size);
-
-		/* the size of the splits is the one recorded in the content file, */
-		/* and the files may be smaller if truncated or lost */
-		if (!parity_is_on_disk(&parity_handle[l])) {
-			log_fatal("WARNING! The %s parity files are smaller than recorded in the content file.\n", lev_name(l));
-			out_size = 0;
-		}
-
 		parityblocks = out_size / state->block_size;
 
 		/* if the file is too small */
